@@ -213,40 +213,65 @@ func RunCheck(cfg CheckConfig) int {
 	evPath := filepath.Join(cfg.VerifDir, "evidence", cfg.Property+".json")
 	os.MkdirAll(filepath.Dir(evPath), 0o755)
 	os.MkdirAll(filepath.Join(cfg.VerifDir, "replays"), 0o755)
-	tags := "verif"
-	w, err := Load(cfg.Repo, tags, filepath.Join(cfg.VerifDir, "gvc", "trusted"))
-	if err != nil {
-		out("TOOL-ERROR: cannot load %s: %v", cfg.Repo, err)
-		// a repository that no longer type-checks cannot satisfy anything
-		return toolFailure(cfg, evPath, start, "repository does not load/type-check with -tags verif: "+err.Error())
+	type load struct{ tags, prefix string }
+	loads := []load{{"verif", ""}}
+	if cfg.Property == "C17" {
+		// parity of the two build variants: the wasm functions and the default functions are verified against the same spec functions
+		loads = []load{{"tinywasm,verif", "tinywasm:"}, {"verif", ""}}
 	}
-	w.InitSpecs()
-	if len(w.Errors) > 0 {
-		for _, e := range w.Errors {
-			out("CONTRACT-ERROR: %s", e)
-		}
-		return toolFailure(cfg, evPath, start, "contract files do not bind: "+w.Errors[0])
-	}
-	tagged, all := w.PropertyFunctions(cfg.Property)
 	timeout := 10
 	sc := SolverConfig{TimeoutSec: timeout, Jobs: 16}
 	if cfg.Tier == "thorough" {
 		sc.TimeoutSec = 60
 		sc.AllSolvers = true
 	}
+	var w *World
 	var obls []*Obligation
 	var fev []*funcEvidence
 	results := map[string]*FuncResult{}
 	var oosFails []*Failure
-	for _, k := range all {
-		r := w.VerifyFunc(k)
-		results[k] = r
-		if r.OutOfSubset != "" {
-			oosFails = append(oosFails, &Failure{Name: k + "/subset", Func: k, Kind: "out-of-subset", Reason: r.OutOfSubset})
+	var tagged, all []string
+	var trustedBase []string
+	for _, ld := range loads {
+		lw, err := Load(cfg.Repo, ld.tags, filepath.Join(cfg.VerifDir, "gvc", "trusted"))
+		if err != nil {
+			out("TOOL-ERROR: cannot load %s: %v", cfg.Repo, err)
+			// a repository that no longer type-checks cannot satisfy anything
+			return toolFailure(cfg, evPath, start, "repository does not load/type-check with -tags "+ld.tags+": "+err.Error())
 		}
-		obls = append(obls, r.Obls...)
+		lw.InitSpecs()
+		if len(lw.Errors) > 0 {
+			for _, e := range lw.Errors {
+				out("CONTRACT-ERROR: %s", e)
+			}
+			return toolFailure(cfg, evPath, start, "contract files do not bind: "+lw.Errors[0])
+		}
+		w = lw
+		ltagged, lall := lw.PropertyFunctions(cfg.Property)
+		var lobls []*Obligation
+		for _, k := range lall {
+			r := lw.VerifyFunc(k)
+			results[ld.prefix+k] = r
+			if r.OutOfSubset != "" {
+				oosFails = append(oosFails, &Failure{Name: ld.prefix + k + "/subset", Func: ld.prefix + k, Kind: "out-of-subset", Reason: r.OutOfSubset})
+			}
+			for _, o := range r.Obls {
+				o.Name = ld.prefix + o.Name
+				o.Func = ld.prefix + o.Func
+			}
+			lobls = append(lobls, r.Obls...)
+		}
+		lw.BG.Discharge(lobls, sc)
+		obls = append(obls, lobls...)
+		for _, k := range ltagged {
+			tagged = append(tagged, ld.prefix+k)
+		}
+		for _, k := range lall {
+			all = append(all, ld.prefix+k)
+		}
+		trustedBase = append(trustedBase, lw.AssumedContracts()...)
+		trustedBase = append(trustedBase, lw.TrustedAxioms...)
 	}
-	w.BG.Discharge(obls, sc)
 	fails := append(Evaluate(obls), oosFails...)
 
 	// per-function evidence
@@ -270,7 +295,7 @@ func RunCheck(cfg CheckConfig) int {
 			}
 			solverTime += o.Seconds
 		}
-		c := w.CS.ByKey[k]
+		c := w.CS.ByKey[strings.TrimPrefix(k, "tinywasm:")]
 		switch {
 		case c != nil && c.Decreases != nil:
 			fe.Termination = "decreases " + c.Decreases.Text
@@ -412,7 +437,7 @@ func RunCheck(cfg CheckConfig) int {
 			"obligations":              nObl - knownObl,
 			"discharged":               nDis,
 			"checker_cmd":              fmt.Sprintf("/verif/check %s %s", cfg.Property, cfg.Tier),
-			"trusted_base":             append(w.AssumedContracts(), w.TrustedAxioms...),
+			"trusted_base":             dedupe(trustedBase),
 			"samples":                  samples,
 			"functions_under_contract": fev,
 			"functions_tagged":         tagged,
@@ -438,6 +463,19 @@ func RunCheck(cfg CheckConfig) int {
 		return 1
 	}
 	return 0
+}
+
+func dedupe(xs []string) []string {
+	seen := map[string]bool{}
+	var out []string
+	for _, x := range xs {
+		if !seen[x] {
+			seen[x] = true
+			out = append(out, x)
+		}
+	}
+	sort.Strings(out)
+	return out
 }
 
 func containsStr(xs []string, s string) bool {
